@@ -108,14 +108,18 @@ V_interp_env(e) ==
             \/ \E k \in inside : ~Near(e.aff_out[k], aff[k], 2000), "C13.affine." \o e.method)
 
 \* Weaver.interpolate(n): exactly n equally spaced points spanning the same range; explicit grid: same end points
+\* value of the Weaver-level interpolation for the two methods the documentation determines (others: environment)
+WInterpVals(e, grid) == IF e.method = "constant" THEN InterpConstantSeq(e.x, e.y, grid, None) ELSE InterpLinearSeq(e.x, e.y, grid)
+ValuesJudged(e) == e.method \in {"linear", "constant"}
 V_winterp(e) ==
     IF e.mode = "n"
     THEN Fail(e.outcome # "ok" \/ ~SeqOK(e.wx, Linspace(e.x[1], Last(e.x), e.n), Tol) \/ Len(e.wy) # e.n, "C13.weaver_grid") \cup
-         Fail(e.outcome # "ok" \/ ~SeqOK(e.wy, InterpLinearSeq(e.x, e.y, Linspace(e.x[1], Last(e.x), e.n)), Tol), "C13.weaver_linear") \cup
-         Fail(e.outcome = "ok" /\ e.wkind # "ndarray1f", "C09.kind")
+         Fail(ValuesJudged(e) /\ (e.outcome # "ok" \/ ~SeqOK(e.wy, WInterpVals(e, Linspace(e.x[1], Last(e.x), e.n)), Tol)), "C13.weaver_" \o e.method) \cup
+         Fail(e.outcome = "ok" /\ (~AllFinite(e.wy) \/ e.wkind # "ndarray1f"), "C09.kind")
     ELSE IF e.q[1] # e.x[1] \/ Last(e.q) # Last(e.x)
     THEN Fail(e.outcome # "ValueError", "C13.grid_endpoints") \cup Fail(e.outcome # "ValueError", "C20.interp_grid") \cup
          Fail(e.outcome = "ValueError" /\ ~e.w_unchanged, "C20.frame")
-    ELSE Fail(e.outcome # "ok" \/ ~SeqOK(e.wx, e.q, Tol) \/ ~SeqOK(e.wy, InterpLinearSeq(e.x, e.y, e.q), Tol), "C13.weaver_explicit_grid") \cup
-         Fail(e.outcome = "ok" /\ e.wkind # "ndarray1f", "C09.kind")
+    ELSE Fail(e.outcome # "ok" \/ ~SeqOK(e.wx, e.q, Tol) \/ Len(e.wy) # Len(e.q), "C13.weaver_explicit_grid") \cup
+         Fail(ValuesJudged(e) /\ (e.outcome # "ok" \/ ~SeqOK(e.wy, WInterpVals(e, e.q), Tol)), "C13.weaver_explicit_" \o e.method) \cup
+         Fail(e.outcome = "ok" /\ (~AllFinite(e.wy) \/ e.wkind # "ndarray1f"), "C09.kind")
 =============================================================================
